@@ -15,6 +15,13 @@ STORE_TRUST = [
     "encoding/json for the options record",
 ]
 
+QUERY_TRUST = [
+    "encoding/json (metadata decode is total; the decoded value is what the model receives)",
+    "regexp.MatchString (linear-time, panic-free; results enter the model as an oracle table)",
+    "strconv.ParseFloat (validity and value of number literals enter the model as an oracle table)",
+    "binary64 comparison of the Go runtime = Lean Float (driver only; theorems hold for every number type)",
+]
+
 PROPS = {
     "C01": dict(
         modules=["Syzgy.Props.C01"], ties=["Storage"],
@@ -31,5 +38,26 @@ PROPS = {
         trusted=STORE_TRUST,
         statement="open(file s) re-establishes the state for any options; reopen is a spec no-op",
         partial="proved: scanFile ∘ render reconstructs index/free map/sequence number for every well-formed segment list (any zero tail)",
+    ),
+    "C13": dict(
+        modules=["Syzgy.Props.C13"], ties=["Query"],
+        runs={"quick": [["query-C13", "--scenarios", "20000"]], "thorough": [["query-C13", "--scenarios", "300000"]]},
+        trusted=QUERY_TRUST,
+        statement="parse ∘ render = ast and eval ∘ ast = denote on well-typed inputs",
+        partial="proved: eval(ast e) = denote e for all well-typed (e, doc), all number arithmetics and regex engines; EXISTS/DOES NOT EXIST = presence for all paths; the lexer/parser half (parse(render e) = ast e) is tied by three-way correspondence, not yet a theorem",
+    ),
+    "C14": dict(
+        modules=["Syzgy.Props.C14"], ties=["Query"],
+        runs={"quick": [["query-C14", "--scenarios", "40000"]], "thorough": [["query-C14", "--scenarios", "1000000"]]},
+        trusted=QUERY_TRUST,
+        statement="lexer, parser and evaluator never panic, for all byte strings",
+        partial="proved: lexer and parser panic-freedom for every input; evaluator totality by construction. Termination is structural on fuel; that fuel 16*len+64 is never exhausted is observed by correspondence, not proved",
+    ),
+    "C15": dict(
+        modules=["Syzgy.Props.C15"], ties=["Query"],
+        runs={"quick": [["query-C15", "--scenarios", "15000"]], "thorough": [["query-C15", "--scenarios", "300000"]]},
+        trusted=QUERY_TRUST,
+        statement="accepted ⇒ all tokens consumed; a condition after `null` is taken into account",
+        partial="proved: acceptance only at EOF for every token source; the null literal is consumed. The corollaries 'A J / A B rejected' for rendered expressions are checked by correspondence on generated triples",
     ),
 }
